@@ -603,3 +603,19 @@ Definition y_stmt_late (f : sform) (c : callee) : bool :=
 
 Definition y_stmt (f : sform) (c : callee) (at_stmt after : val) : val := if y_stmt_late f c then after else at_stmt.
 Definition g_stmt (at_stmt after : val) : val := at_stmt.
+
+(* ------------------------------------------------------------------ *)
+(** * Composite literals of host-declared slice / array types (compositeBinSlice) *)
+
+(** The index of every element and the length: "an element without a key uses the previous element's
+    index plus one" — compositeBinSlice keeps [prev] and [max] exactly so. *)
+Fixpoint lit_indexes (prev : nat) (keys : list (option nat)) : list nat :=
+  match keys with
+  | [] => []
+  | k :: ks => let i := match k with Some j => j | None => prev end in i :: lit_indexes (S i) ks
+  end.
+
+Definition lit_length (keys : list (option nat)) : nat := fold_left Nat.max (map S (lit_indexes 0 keys)) 0.
+
+Definition y_lit (keys : list (option nat)) : list nat * nat := (lit_indexes 0 keys, lit_length keys).
+Definition g_lit := y_lit.   (* the Go specification's rule is the same function: the contract is met *)
